@@ -2,6 +2,7 @@ import Req.Pool.CancelPool
 import Req.Lemmas.C09Pool
 import Req.Lemmas.C09PoolExcl
 import Req.Lemmas.C09PoolCount
+import Req.Lemmas.C09PoolLru
 /-! Helper lemmas for the C08 pool theorems: `firstLive` is what `popUntilWaiting` computes, and
 the invariant `NSW` (queued for a slot ⇒ no slot is free) is preserved by every critical section. -/
 namespace Req.Lemmas.CancelPool
@@ -294,5 +295,99 @@ theorem cnt_pos_of_mem (p : Nat → Bool) (l : List Nat) (x : Nat) (hx : x ∈ l
     rcases List.mem_cons.mp hx with rfl | hx
     · simp only [hp, if_true]; omega
     · have := ih hx; omega
+
+/-! ### a connection handed to `tryPutIdleConn` ends up somewhere -/
+
+open Req.Lemmas.C09PoolLru
+
+theorem removeIdleLocked_mem_of_ne (s : St) (x c : Conn) (k : Key) (hne : c ≠ x) (h : c ∈ s.idle k) :
+    c ∈ (removeIdleLocked s x).1.idle k := by
+  unfold removeIdleLocked
+  split
+  · exact h
+  · next kx _ =>
+    split
+    · simp only [upd]
+      split
+      · next heq => subst heq; exact (List.mem_erase_of_ne hne).mpr h
+      · exact h
+    · exact h
+
+/-- After `evictOldest` an idle-listed connection (with a key) is still listed, or closed. -/
+theorem evictOldest_keeps_or_closes (cfg : Cfg) (s : St) (c : Conn) (k : Key) (hk : s.ckey c = some k)
+    (h : c ∈ s.idle k) :
+    c ∈ (evictOldest cfg s).idle k ∨ (evictOldest cfg s).closed c = true := by
+  unfold evictOldest
+  split
+  · exact Or.inl h
+  · next oldest _ =>
+    by_cases hco : c = oldest
+    · right
+      subst hco
+      simp only [removeIdleLocked_closed]
+      exact (closeConn_closed cfg _ c c).mpr (Or.inr ⟨rfl, by simp [hk]⟩)
+    · left
+      apply removeIdleLocked_mem_of_ne _ _ _ _ hco
+      simpa using h
+
+theorem addIdle_lists_or_closes (cfg : Cfg) (s : St) (c : Conn) (k : Key) (hk : s.ckey c = some k) :
+    c ∈ (addIdle cfg s c k).idle k ∨ (addIdle cfg s c k).closed c = true := by
+  unfold addIdle
+  simp only
+  split
+  · exact evictOldest_keeps_or_closes cfg _ c k hk (by simp [upd])
+  · left; simp [upd]
+
+@[simp] theorem addIdle_transit (cfg : Cfg) (s : St) (c : Conn) (k : Key) : (addIdle cfg s c k).transit = s.transit := by
+  unfold addIdle; simp only; split <;> simp
+
+@[simp] theorem tryPut_transit (cfg : Cfg) (s : St) (c : Conn) (k : Key) : (tryPut cfg s c k).1.transit = s.transit := by
+  unfold tryPut
+  split
+  · rfl
+  · split
+    · rfl
+    · split
+      · rfl
+      · simp only
+        (repeat' split) <;> simp
+
+/-- What `tryPutIdleConn` did with a connection it accepted: handed to a waiting request, listed
+idle, (listed and then) closed by the `MaxIdleConns` eviction — or the connection was already
+listed (the "dup" internal error, unreachable: the caller holds it). -/
+theorem tryPut_ok_places (cfg : Cfg) (s : St) (c : Conn) (k : Key) (hk : s.ckey c = some k)
+    (hok : (tryPut cfg s c k).2 = .ok) :
+    (∃ w, (tryPut cfg s c k).1.wst w = .gotConn c) ∨ c ∈ (tryPut cfg s c k).1.idle k ∨
+    (tryPut cfg s c k).1.closed c = true ∨ c ∈ s.lru := by
+  unfold tryPut at hok ⊢
+  split
+  · next h => rw [if_pos h] at hok; cases hok
+  · next h =>
+    rw [if_neg h] at hok
+    split
+    · next h2 => rw [if_pos h2] at hok; cases hok
+    · next h2 =>
+      rw [if_neg h2] at hok
+      split
+      · next w q heq => left; exact ⟨w, by simp⟩
+      · next q heq =>
+        rw [heq] at hok
+        simp only at hok ⊢
+        split
+        · next h3 => rw [if_pos h3] at hok; cases hok
+        · next h3 =>
+          rw [if_neg h3] at hok
+          split
+          · next h4 => rw [if_pos h4] at hok; cases hok
+          · next h4 =>
+            split
+            · next h5 =>
+              simp only [Bool.or_eq_true, List.contains_iff_mem] at h5
+              rcases h5 with h5 | h5
+              · right; left; exact h5
+              · right; right; right; exact h5
+            · rcases addIdle_lists_or_closes cfg { s with idleWait := upd s.idleWait k q } c k hk with h6 | h6
+              · right; left; exact h6
+              · right; right; left; exact h6
 
 end Req.Lemmas.CancelPool
